@@ -85,6 +85,9 @@ func runC10(p *eng.Prog, r *eng.Report, tier string) {
 		for _, cl := range cs.Calls("internal/stream.Close") {
 			n++
 			c.dom("C10.1", cs, cl, "write of the closing tag", []string{"!" + outClosed})
+			// ... and by nothing else: a session that is not Ready (negotiation failed
+			// after the header went out) still owes the peer its closing tag
+			c.onlyFacts("C10.1", cs, cl, "write of the closing tag [no other condition]", []string{"!" + outClosed, "!all(xmpp.Session.State[*](),xmpp.OutputStreamClosed)"})
 			pt, _ := g.Where(cl)
 			setBit := func(q eng.Point, nd ast.Node) bool {
 				as, ok := nd.(*ast.AssignStmt)
